@@ -503,6 +503,14 @@ fn finish(
             unmet.push("evaluations".to_string());
         }
     }
+    let mut unmet_soft: Vec<String> = Vec::new();
+    if opts.only_case.is_none() {
+        for c in check.soft_counters(opts.tier) {
+            if tot.counters.get(&c).copied().unwrap_or(0) == 0 {
+                unmet_soft.push(c);
+            }
+        }
+    }
 
     let wall_s = t0.elapsed().as_secs_f64();
     let skipped = tot.counters.get("cases_skipped_by_deadline").copied().unwrap_or(0);
@@ -550,6 +558,7 @@ fn finish(
     cov.insert("violation_signatures".into(), Value::Array(viol_summ));
     cov.insert("harness_errors".into(), json!(tot.harness_errors.len()));
     cov.insert("unmet_observation_thresholds".into(), json!(unmet));
+    cov.insert("library_policy_observations_not_seen".into(), json!(unmet_soft));
     let ev = json!({
         "property_id": id,
         "tier": opts.tier.name(),
@@ -588,6 +597,9 @@ fn finish(
     if opts.verbose || opts.only_case.is_some() {
         println!("observed: {}", serde_json::to_string(&tot.counters).unwrap());
         println!("observed_max: {}", serde_json::to_string(&tot.maxes).unwrap());
+    }
+    if !unmet_soft.is_empty() {
+        println!("NOTE property={} library-policy observations not seen in this run (informational): {:?}", id, unmet_soft);
     }
     for h in tot.harness_errors.iter().take(5) {
         println!("HARNESS-ERROR property={} {}", id, h);
